@@ -24,6 +24,7 @@ REQUIRED_THEOREMS = ['CfVerif.C07.' + t for t in (
     'dispatch_calls', 'dispatch_exactly_once', 'not_registered_not_called', 'raise_isolated', 'later_packets_processed',
     'remove_only_that_registration', 'dispatch_after_remove', 'packets_in_order', 'packets_in_order_static',
     'caller_add_no_duplicates', 'caller_remove_only_that', 'caller_call_snapshot',
+    'gen_match_captured', 'mutation_isolated', 'live_header_counterexample',
     'gen_every_packet_dispatched', 'no_packet_skipped', 'receive_is_dispatch', 'all_packet_callbacks_get_every_packet',
     'live_dispatch_counterexample', 'live_remove_counterexample')]
 TRUSTED = ['harness/corr/c07.py extractor + correspondence + spec twin',
@@ -35,7 +36,8 @@ ASSUMPTIONS = ['exceptions raised by all-packet callbacks (cf.packet_received) e
                '(Ev.died) and agreed with the code, but outside the wording of C07 (port callbacks); later_packets_processed assumes none raises',
                'registry operations from OTHER threads are modelled between packets (ext ops) and as part of callback bodies, not at '
                'bytecode granularity inside the dispatch loop',
-               'callbacks that mutate the packet object (pk.port = ...) are outside the model',
+               'callbacks rewriting port/channel of the packet object are modelled (Act.setPort/setChan); rewriting the PAYLOAD in place is not '
+               '(it cannot influence the dispatcher); the library itself does so for parameter read replies - recorded as an observation',
                'BaseException subclasses that are not Exception (KeyboardInterrupt, SystemExit) raised by a port callback are not caught by the code; not modelled']
 RULE = ('cases = one dispatcher per case: registrations (<= 8 initial, header/port/default-mask/keyword/Crazyflie-wrapper spellings, duplicates '
         'included), per-invocation callback scripts (add / remove self, earlier, later, absent / raise / Caller add, remove) for port and '
@@ -268,8 +270,31 @@ def extract(ctx):
         cond = fl.body[0].test
         loop_body = fl.body[0].body
     g.raw('def dispatchSnapshot : Bool := ' + _lbool(_iter_kind(src, 'self.cb', 'run')))
-    env = {gv + '.port': 'cbPort', gv + '.port_mask': 'cbPortMask', gv + '.channel': 'cbChan', gv + '.channel_mask': 'cbChanMask',
-           pkv + '.port': 'pkPort', pkv + '.channel': 'pkChan'}
+    env = {gv + '.port': 'cbPort', gv + '.port_mask': 'cbPortMask', gv + '.channel': 'cbChan', gv + '.channel_mask': 'cbChanMask'}
+    # where do the packet's port/channel in the match come from: the live packet object (re-read for every
+    # registration, while callbacks hold the same object) or locals read once before any callback ran?
+    used_attr = {ast.unparse(n) for n in ast.walk(cond) if isinstance(n, ast.Attribute)} & {pkv + '.port', pkv + '.channel'}
+    used_names = {n.id for n in ast.walk(cond) if isinstance(n, ast.Name)} - {gv, pkv}
+    first_cb_stmt = min(i for i, st_ in enumerate(wl.body) for n in ast.walk(st_)
+                        if isinstance(n, ast.Call) and ast.unparse(n.func) in ('self.cf.packet_received.call',) or st_ is fl)
+    captured = {}
+    for i, st_ in enumerate(wl.body):
+        if isinstance(st_, ast.Assign) and len(st_.targets) == 1 and isinstance(st_.targets[0], ast.Name) \
+                and ast.unparse(st_.value) in (pkv + '.port', pkv + '.channel') and i > wl.body.index(recv[0]):
+            captured[st_.targets[0].id] = (i, 'pkPort' if ast.unparse(st_.value).endswith('.port') else 'pkChan')
+    if used_attr and not used_names:
+        env[pkv + '.port'], env[pkv + '.channel'] = 'pkPort', 'pkChan'
+        match_captured = False
+    elif used_names and not used_attr and all(nm in captured and captured[nm][0] < first_cb_stmt for nm in used_names):
+        for nm in used_names:
+            env[nm] = captured[nm][1]
+            X.expect(sum(1 for n in ast.walk(wl) if isinstance(n, ast.Name) and n.id == nm and isinstance(n.ctx, ast.Store)) == 1,
+                     'run: %s is assigned more than once' % nm)
+        match_captured = True
+    else:
+        raise ExtractError('run: match condition mixes live packet fields and locals, or uses locals not read from the packet '
+                           'before the first callback: ' + ast.unparse(cond))
+    g.raw('def matchCapturedHeader : Bool := ' + _lbool(match_captured))
     g.raw('def matchExpr (cbPort cbPortMask cbChan cbChanMask pkPort pkChan : Nat) : Bool := ' + _bool_to_lean(cond, env))
     # the callback invocation and its exception handling
     lv = fl.target.id
@@ -344,6 +369,12 @@ def act_token(a):
         return '%s:%d:%d:%d:%d:%d' % (a[0], port, pm, ch, cm, cb)
     if a[0] in ('A', 'R'):
         return '%s:%d' % (a[0], a[1])
+    if a[0] == 'hp':
+        return 'hp:%d' % a[1]
+    if a[0] == 'hc':
+        return 'hc:%d' % a[1]
+    if a[0] == 'hh':                       # pk.set_header(port, channel)
+        return 'hp:%d,hc:%d' % (a[1], a[2])
     return 'x'
 
 
@@ -491,6 +522,16 @@ class RealEnv:
         if a[0] == 'x':
             self.log.append('!')
             raise Scripted()
+        if a[0] in ('hp', 'hc', 'hh'):          # the callback rewrites the packet object it was given
+            if a[0] == 'hp':
+                self.cur.port = a[1]
+            elif a[0] == 'hc':
+                self.cur.channel = a[1]
+            else:
+                self.cur.set_header(a[1], a[2])
+            if self.trace_ops:
+                self.log.append('M')
+            return
         if a[0] == 'A':
             self.cf.packet_received.add_callback(self.cb(a[1]))
             if self.trace_ops:
@@ -646,7 +687,7 @@ def gen_random_case(rng, big=False):
     def rand_act(owner_pos=None):
         r = rng.random()
         if r < 0.40 and regs:
-            if owner_pos is not None and rng.random() < 0.6:
+            if isinstance(owner_pos, int) and rng.random() < 0.6:
                 kind = rng.choice(['self', 'earlier', 'later'])
                 if kind == 'self':
                     f = regs[owner_pos]
@@ -666,9 +707,13 @@ def gen_random_case(rng, big=False):
                 f = rand_fields(rng, hot) + (rng.randrange(1, ncb + 1),)
                 regs.append(f)
             return mk_reg_act('a', how_for(rng, f[1], f[2], f[3]), *f)
-        if r < 0.85:
+        if r < 0.80:
             return ('x',)
-        if r < 0.93:
+        if r < 0.88 and owner_pos != 'ext':
+            k = rng.random()
+            tgt = rng.choice(hot) if rng.random() < 0.6 else rng.randrange(16)
+            return ('hp', tgt) if k < 0.35 else ('hc', rng.randrange(4)) if k < 0.6 else ('hh', tgt, rng.randrange(4))
+        if r < 0.94:
             return ('A', 100 + rng.randrange(3))
         return ('R', 100 + rng.randrange(3))
 
@@ -690,8 +735,8 @@ def gen_random_case(rng, big=False):
         ops.append(('beh', cid, k, acts))
     for b in range(rng.choice([1, 1, 2, 3])):
         if b and rng.random() < 0.5:
-            ops.append(('ext', rand_act(None) if rng.random() < 0.8 else ('R', 100 + rng.randrange(3))))
-            if ops[-1][1][0] == 'x':
+            ops.append(('ext', rand_act('ext') if rng.random() < 0.8 else ('R', 100 + rng.randrange(3))))
+            if ops[-1][1][0] in ('x', 'hp', 'hc', 'hh'):
                 ops.pop()
         ops.append(('pkts', [rand_hdr(rng, hot) for _ in range(rng.choice([1, 1, 2, 3, 4]))]))
     return {'mode': 'thread' if rng.random() < 0.15 else 'sync', 'ops': ops, 'family': 'random'}
@@ -727,6 +772,23 @@ def gen_families(rng, thorough):
             ops.append(('beh', i + 1, 0, [mk_reg_act('a', 'port', port, 0xFF, 0, 0, rng.choice([i + 1, n + 1]))]))
             ops.append(('pkts', [port << 4, port << 4]))
             cases.append({'mode': 'sync', 'ops': ops, 'family': 'add-during'})
+    # F2b: callback i rewrites the header of the packet it was given (to another registered port / channel)
+    for n in (2, 3, 4):
+        for i in range(n):
+            for how in ('hh', 'hp', 'hc'):
+                pa, pb = rng.sample(range(16), 2)
+                ops = [('ext', mk_reg_act('a', 'port', pa, 0xFF, 0, 0, k + 1)) for k in range(n)]
+                ops.append(('ext', mk_reg_act('a', 'port', pb, 0xFF, 0, 0, n + 1)))
+                ops.append(('ext', mk_reg_act('a', 'full', pa, 0xFF, 1, 0xFF, n + 2)))
+                act = ('hh', pb, 1) if how == 'hh' else ('hp', pb) if how == 'hp' else ('hc', 1)
+                ops.append(('beh', i + 1, 0, [act]))
+                ops.append(('pkts', [pa << 4, (pa << 4) | 1, pb << 4]))
+                cases.append({'mode': 'sync', 'ops': ops, 'family': 'mutate-header'})
+    for c in (100,):
+        pa, pb = rng.sample(range(16), 2)
+        ops = [('ext', ('A', c)), ('ext', mk_reg_act('a', 'port', pa, 0xFF, 0, 0, 1)), ('ext', mk_reg_act('a', 'port', pb, 0xFF, 0, 0, 2)),
+               ('beh', c, 0, [('hh', pb, 0)]), ('pkts', [pa << 4, pa << 4])]
+        cases.append({'mode': 'sync', 'ops': ops, 'family': 'mutate-header'})
     # F3: all 256 headers against small registries with assorted masks
     for _ in range(24 if thorough else 6):
         hot = [rng.randrange(16), rng.randrange(16)]
@@ -937,7 +999,11 @@ def spec_eval(case):
             want = 1 if spec_match(r, h) else 0
             got = d.calls.count(r)
             if got != want:
-                if want == 1 and got == 0 and d.removed and not d.raised:
+                if d.mutated and got != want and got <= 1:
+                    bad.append(('D71-live-header-match', 'registration %s %s the header %d as received and was called %d times after a '
+                                'callback rewrote port/channel of the packet object during its dispatch' %
+                                (r, 'matches' if want else 'does not match', h, got), h))
+                elif want == 1 and got == 0 and d.removed and not d.raised:
                     bad.append(('D7-live-iteration-skip', 'registration %s matches header %d, was registered before and throughout the '
                                 'dispatch, and did not get the packet after a callback unregistered %s' % (r, h, sorted(d.removed)), h))
                 elif want == 1 and got == 0:
@@ -947,6 +1013,10 @@ def spec_eval(case):
                 else:
                     bad.append(('delivered-twice', 'registration %s got the packet %d times' % (r, got), h))
         for r in set(d.calls):
+            if d.mutated and not spec_match(r, h) and r not in d.r0:
+                bad.append(('D71-live-header-match', 'registration %s does not match the header %d as received and was called after a '
+                            'callback rewrote port/channel of the packet object' % (r, h), h))
+                continue
             if d.calls.count(r) > 1:
                 bad.append(('delivered-twice', 'registration %s got the packet %d times' % (r, d.calls.count(r)), h))
             if not spec_match(r, h):
@@ -981,7 +1051,7 @@ def spec_eval(case):
                 cur.h, cur.a0, cur.r0 = int(t[1:]), list(alls), None
                 npk = sum(1 for x in toks if x[0] == 'P')
                 cur.n = fedlen[npk - 1] if npk <= len(fedlen) else -1
-                cur.allcalls, cur.calls, cur.removed, cur.added, cur.raised = [], [], set(), [], False
+                cur.allcalls, cur.calls, cur.removed, cur.added, cur.raised, cur.mutated = [], [], set(), [], False, False
             elif cur is None:
                 bad.append(('event-without-packet', t, None))
             elif t == 'D':
@@ -992,6 +1062,8 @@ def spec_eval(case):
                 bad.append(('dispatcher-died', 'dispatcher thread not alive', cur.h))
             elif t in ('!', 'L'):
                 cur.raised = True
+            elif t == 'M':
+                cur.mutated = True
             elif t[0] == 'A':
                 apply_op(t)
             elif t[0] == 'a':
@@ -1022,6 +1094,11 @@ def spec_eval(case):
 D7_WITNESS = {'mode': 'sync', 'family': 'D7-witness', 'ops': [
     ('ext', ('a', 'port', 9, 0xFF, 0, 0, 1)), ('ext', ('a', 'port', 9, 0xFF, 0, 0, 2)), ('ext', ('a', 'port', 9, 0xFF, 0, 0, 3)),
     ('beh', 1, 0, [('r', 'port', 9, 0xFF, 0, 0, 1)]), ('pkts', [0x90, 0x90])]}
+
+
+D71_WITNESS = {'mode': 'sync', 'family': 'D71-witness', 'ops': [
+    ('ext', ('a', 'port', 15, 0xFF, 0, 0, 1)), ('ext', ('a', 'port', 15, 0xFF, 0, 0, 2)), ('ext', ('a', 'port', 13, 0xFF, 0, 0, 3)),
+    ('beh', 1, 0, [('hh', 13, 1)]), ('pkts', [(0xF1, 18), (0xF1, 18)])]}
 
 
 def gen_search_case(rng):
@@ -1074,22 +1151,120 @@ def gen_search_case(rng):
                 t = fresh()
                 regs.append(t)
                 acts.append(mk_reg_act('a', how_for(rng, t[1], t[2], t[3]), *t))
+            elif r < 0.9:
+                tgt = rng.choice(hot) if rng.random() < 0.6 else rng.randrange(16)
+                acts.append(rng.choice([('hp', tgt), ('hc', rng.randrange(4)), ('hh', tgt, rng.randrange(4))]))
             else:
                 acts.append(('x',))
                 break
         ops.append(('beh', cid, k, acts))
     if alls and rng.random() < 0.5:
         c = rng.choice(alls)
-        a = rng.choice([('A', 100 + rng.randrange(4)), ('R', c), mk_reg_act('r', 'full', *rng.choice(regs))])
+        a = rng.choice([('A', 100 + rng.randrange(4)), ('R', c), mk_reg_act('r', 'full', *rng.choice(regs)),
+                        ('hh', rng.choice(hot), rng.randrange(4))])
         ops.append(('beh', c, rng.choice([0, 1]), [a]))
     for b in range(rng.choice([1, 2, 3])):
         ops.append(('pkts', [rand_hdr(rng, hot) for _ in range(rng.choice([1, 2, 3, 4]))]))
     return {'mode': 'thread' if rng.random() < 0.1 else 'sync', 'ops': ops, 'family': 'search-random'}
 
 
+def library_session(rng, n_extra=400):
+    """The REAL Crazyflie object (all of the library's own port / all-packet callbacks registered) connects to the
+    simulated device; observers registered by the application on every port and every (port, channel) plus an
+    all-packet observer record what they are given.  Every packet handed out by the link must reach exactly the
+    observers matching its header AS RECEIVED, once, and be - at that moment - the packet that was received
+    (same object, same header, port, channel and payload): nobody in the library may rewrite a packet that is
+    still being dispatched.  After the connection, payloads seen during the session (and empty / short / full
+    ones) are replayed on every port and channel.  Returns a list of (key, what, detail)."""
+    import logging
+    from harness.sim import crazyflie_device as sim
+    logging.disable(logging.CRITICAL)
+    bad = []
+    try:
+        dev = sim.CrazyflieDevice(log_toc=[sim.LogVar('g', 'v%d' % i, 'float') for i in range(3)],
+                                  param_toc=[sim.ParamVar('p', 'x%d' % i, 'uint8_t', i) for i in range(3)])
+        s = sim.SyncSession(dev)
+        cf = s.cf
+        rewritten = set()
+        received = []          # (object, header, port, channel, payload) at hand-out
+        seen = []              # (observer, index of the packet being dispatched, same object?, fields at call time)
+        observers = {}
+
+        def mk(name, pattern):
+            def f(pk):
+                k = len(received) - 1
+                seen.append((name, k, k >= 0 and pk is received[k][0], (pk.header, pk.port, pk.channel, bytes(pk.data))))
+            observers[name] = pattern
+            return f
+        for port in range(16):
+            cf.add_port_callback(port, mk('port%d' % port, (port, 0xFF, 0, 0)))
+            for chan in range(4):
+                cf.add_header_callback(mk('hdr%d.%d' % (port, chan), (port, 0xFF, chan, 0xFF)), port, chan)
+        cf.packet_received.add_callback(mk('all', None))
+        s.open()
+        link = s.link
+        orig = link.receive_packet
+
+        def receive_packet(wait=0):
+            pk = orig(wait)
+            if pk is not None:
+                received.append((pk, pk.header, pk.port, pk.channel, bytes(pk.data)))
+            return pk
+        link.receive_packet = receive_packet
+        s.run(until='fully_connected', max_steps=20000)
+        n_session = len(received)
+        pool = [b'', b'\x00', b'\x01\x02', bytes(range(30))] + sorted({r[4] for r in received})
+        for _ in range(n_extra):
+            if s.link is None or s.cf.link is None:
+                break
+            s.inject(rng.randrange(16), rng.randrange(4), rng.choice(pool))
+            s.run(max_steps=200)
+        for k, (pk, hdr, port, chan, data) in enumerate(received):
+            h = (port << 4) | chan
+            for name, pat in observers.items():
+                calls = [x for x in seen if x[0] == name and x[1] == k]
+                want = 1 if pat is None or spec_match(pat, h) else 0
+                desc = {'packet_index': k, 'during_connect': k < n_session, 'port': port, 'channel': chan, 'payload': data.hex(), 'observer': name}
+                if len(calls) != want:
+                    key = 'missed-delivery' if want and not calls else 'non-matching-called' if not want else 'delivered-twice'
+                    bad.append((key, 'library session: observer %s (pattern %s) got the packet received on port %d channel %d '
+                                '(payload %s) %d times, expected %d' % (name, pat, port, chan, data.hex() or '-', len(calls), want), desc))
+                for c in calls:
+                    if c[2] and c[3][:3] == (hdr, port, chan) and c[3][3] != data:
+                        # same object, same header, payload rewritten in place by an earlier callback: recorded as an
+                        # observation (C07 is worded about headers and deliveries), see docs/C07.md
+                        rewritten.add((port, chan, len(data), len(c[3][3])))
+                    elif not c[2] or c[3] != (hdr, port, chan, data):
+                        bad.append(('packet-altered', 'library session: observer %s was given the packet received on port %d channel %d '
+                                    'payload %s as header=%d port=%d channel=%d payload=%s: a callback registered before it rewrote the '
+                                    'packet while it was being dispatched' % ((name, port, chan, data.hex() or '-') + c[3][:3] + (c[3][3].hex() or '-',)), desc))
+        stats = {'packets': len(received), 'during_connect': n_session, 'observer_calls': len(seen),
+                 'connected': 'fully_connected' in s.events or 'connected' in s.events,
+                 'payload_rewritten_in_place': len(rewritten), 'rewritten': sorted(rewritten)}
+    finally:
+        logging.disable(logging.NOTSET)
+    return bad, stats
+
+
 def search(ctx):
     rng = ctx.rng
-    cases = [D7_WITNESS]
+    # the library's own callbacks alongside application registrations, on a real connection
+    bad, stats = library_session(rng, 400 if ctx.tier == 'quick' else 4000)
+    for k, v in stats.items():
+        if k != 'rewritten':
+            ctx.count('library-session:' + k, int(v))
+    if stats['rewritten']:
+        ctx.note('observation (not counted as a C07 violation): a library callback rewrites the PAYLOAD of a received packet in place '
+                 'while it is being dispatched, so later callbacks on that port see the altered payload; (port, channel, received length, '
+                 'length seen by later callbacks): %s' % stats['rewritten'][:8])
+    rep_keys = set()
+    for key, what, desc in bad:
+        if key in rep_keys:
+            ctx.count('search-violations-suppressed')
+            continue
+        rep_keys.add(key)
+        ctx.witness(key, what, dict(desc, session='library', family='library-session'))
+    cases = [D7_WITNESS, D71_WITNESS]
     for c in load_corpus():
         if c.get('search'):
             cases.append(c)
@@ -1122,7 +1297,7 @@ def search(ctx):
     for _ in range(3000 if ctx.tier == 'quick' else 30000):
         cases.append(gen_search_case(rng))
     cases = [with_payloads(c, rng) for c in cases]
-    cases += [with_payloads(c, rng, all_len=0) for c in cases if c['family'] in ('search-headers', 'D7-witness', 'search-raise')]
+    cases += [with_payloads(c, rng, all_len=0) for c in cases if c['family'] in ('search-headers', 'D7-witness', 'search-raise') and c is not None]
     for n in (0, 1, 30):          # every header byte with this payload length, observed by all-packet and port callbacks
         ops = [('ext', ('A', 100)), ('ext', ('A', 101)), ('ext', mk_reg_act('a', 'full', 0, 0, 0, 0, 1))]
         ops += [('ext', mk_reg_act('a', 'port', p, 0xFF, 0, 0, 2 + p)) for p in range(16)]
@@ -1137,7 +1312,7 @@ def search(ctx):
                     n = pk_pair(x)[1]
                     ctx.count('search-payload:%s' % ('0' if n == 0 else '1' if n == 1 else '30' if n == 30 else 'other'))
         for key, what, h in spec_eval(c):
-            if (key, c['family']) in reported and c['family'] != 'D7-witness':
+            if (key, c['family']) in reported and c['family'] not in ('D7-witness', 'D71-witness'):
                 ctx.count('search-violations-suppressed')
                 continue
             reported.add((key, c['family']))
@@ -1151,6 +1326,13 @@ def replay(ctx, rp):
     import json
     w = rp.get('witness') or {}
     inp = w.get('input') or {}
+    if inp.get('session') == 'library':
+        import random
+        bad, stats = library_session(random.Random(int(rp.get('seed', 0))), 400)
+        print('library session:', stats)
+        for key, what, desc in bad[:10]:
+            print('VIOLATED [%s] %s' % (key, what))
+        return bool(bad)
     if 'ops' not in inp:
         print('replay file has no failing input (kind=%s): it names broken obligations; run ./check C07 to re-check them' % rp.get('kind'))
         print(json.dumps(rp.get('broken'), indent=1)[:3000])
